@@ -72,13 +72,16 @@ func (c04) Gen(rt *rapid.T, thorough bool) any {
 	if rapid.IntRange(0, 7).Draw(rt, "slow_sink4") == 0 {
 		// a sink that takes simulated time per item: whatever Stop has to wait for, once it has
 		// returned every accepted item is delivered or counted
-		s.SleepMs = rapid.SampledFrom([]int{120, 400}).Draw(rt, "sleep_ms4")
-		s.Gate, s.Slow, s.Knobs.AutoAdvS, s.Knobs.Starve, s.Clock = 0, 0, 900, nil, nil
+		s.SleepMs = rapid.SampledFrom([]int{120, 400, 5000}).Draw(rt, "sleep_ms4")
+		if s.SleepMs == 5000 {
+			s.Policy, s.BufferSize = "Block", 100 // a writer waits as long as it takes for a slot
+		}
+		s.Gate, s.Slow, s.Knobs.AutoAdvS, s.Knobs.Starve, s.Clock = 0, 0, 1200, nil, nil
 		s.Producers = nil
 		np := rapid.IntRange(1, 3).Draw(rt, "slow_producers")
 		for p := 0; p < np; p++ {
 			var ops []AOp
-			for i := 0; i < 90/np+5; i++ {
+			for i := 0; i < map[bool]int{false: 90, true: 104}[s.SleepMs == 5000]/np+5; i++ {
 				ops = append(ops, AOp{Lvl: "ERROR", Raw: (p+i)%6 == 0, Size: 2})
 			}
 			s.Producers = append(s.Producers, ops)
@@ -129,6 +132,7 @@ func (c04) Run(x *Exec, scn any) {
 			return
 		}
 	}
+	_ = sys.counter() // a monitoring read in mid-life: reading the counter does not change it
 	sys.gateOpen = true
 	x.Sim.Spawn("stopper", sys.stop)
 	sys.drain(x)
